@@ -94,3 +94,57 @@ func lemmaPipeByteHead(pb *pipebuf, o int64) (ok bool) {
 //@   loop 1 invariant (p.head == old(p.head) && (p.head != nil ==> p.head.off == old(p.head.off))) || (old(p.head) != nil && old(p.head.off) + int64(len(old(p.head.b))) < off)
 //@   modifies p.head, p.tail, p.start, p.end, pipebuf.off, pipebuf.next
 //@   noframe
+
+// newPipebuf takes a chunk from a sync.Pool (outside the subset): trusted. The pool only ever
+// holds chunks created by its New function (4096-byte buffers) whose b is never resliced.
+//
+//@ func newPipebuf() (r)
+//@   trusted
+//@   ensures r != nil && fresh(r) && len(r.b) == 4096 && r.next == nil
+//@   allocates
+
+// writeAt: exact window update and the mechanism of "the bytes of b land at their stream positions".
+//   - window: start unchanged, end == max(old end, off+len(b));
+//   - the copy loop is reached exactly when the write ends beyond the window start (ghost counter
+//     at the loop): a write that straddles start is trimmed, never dropped; a write entirely in
+//     front of the window never touches a chunk;
+//   - alignment (loop invariants): at every iteration the remaining source slice b is the suffix of
+//     the caller's b (same array, same end) and off + len(b) == end, i.e. b[i] is the byte for
+//     stream offset off+i; off never falls below max(entry off, start);
+//   - progress (step clauses): an iteration either skips a chunk that ends at or before off, or
+//     fills the chunk from position off - pb.off to its end; it moves to pb.next, and a chunk that
+//     is appended starts exactly where its predecessor ends and becomes the tail;
+//   - content (last two step clauses): in every iteration that continues, chunk bytes
+//     [off - pb.off, ...) of the current chunk equal the source bytes b[0..n) of that iteration,
+//     provided the chunk starts at or before off (0 <= pb.off <= off: a consequence of the chain
+//     adjacency, which is not mechanised, see props C30).
+// Not covered: the content written by the final (returning) iteration, the chain-level view
+// pipeByte after the write, index safety of pb.b[pboff:] (needs pb.off <= off for every chunk
+// reached, i.e. adjacency of the whole chain: partial nopanic), the frame (noframe).
+//
+//@ func (*pipe).writeAt(p, b, off)
+//@   havocs except pipe.start, Stream.inwin, Stream.insize, Stream.inresetcode, Stream.conn, Stream.id, Conn.side
+//@   requires p != nil && 0 <= off && off <= 1<<62 && off + int64(len(b)) <= 1<<62
+//@   requires 0 <= p.start && p.start <= p.end && p.end <= 1<<62
+//@   requires headOK(p) && tailOK(p) && (p.head == nil <==> p.tail == nil)
+//@   ensures  p.start == old(p.start)
+//@   ensures  p.end == max(old(p.end), off + int64(len(b)))
+//@   ghost copied += 1 at loop 1
+//@   loop 1 invariant p.start == old(p.start) && p.end == max(old(p.end), old(off) + int64(len(old(b))))
+//@   loop 1 invariant pb != nil && p.head != nil && p.tail != nil
+//@   loop 1 invariant off + int64(len(b)) == end && end == old(off) + int64(len(old(b)))
+//@   loop 1 invariant samebase(b, old(b)) && endoff(b) == endoff(old(b)) && len(b) <= len(old(b))
+//@   loop 1 invariant max(old(off), old(p.start)) <= off
+//@   loop 1 step pb == iterstart(pb).next && iterstart(pb).off == iterstart(pb.off) && len(iterstart(pb).b) == iterstart(len(pb.b))
+//@   loop 1 step iterstart(pb.next) == nil ==> pb.off == iterstart(pb.off) + int64(iterstart(len(pb.b))) && pb.next == nil && p.tail == pb
+//@   loop 1 step iterstart(pb.next) != nil ==> pb.off == iterstart(pb.next.off) && p.tail == iterstart(p.tail)
+//@   loop 1 step iterstart(off - pb.off >= int64(len(pb.b))) ==> off == iterstart(off)
+//@   loop 1 step iterstart(0 <= off - pb.off && off - pb.off < int64(len(pb.b))) ==> off == iterstart(pb.off) + int64(iterstart(len(pb.b))) && len(b) > 0
+//@   loop 1 step iterstart(pb.next != nil && 0 <= pb.off && pb.off <= off && off - pb.off < int64(len(pb.b))) ==> forall i int :: 0 <= i && i < int(off - iterstart(off)) ==> iterstart(pb).b[int(iterstart(off - pb.off)) + i] == iterstart(b[i])
+//@   loop 1 step iterstart(pb.next == nil && 0 <= pb.off && pb.off <= off && off - pb.off < int64(len(pb.b))) ==> forall i int :: 0 <= i && i < int(off - iterstart(off)) ==> iterstart(pb).b[int(iterstart(off - pb.off)) + i] == iterstart(b[i])
+//@   ensures  old(off + int64(len(b)) > p.start) ==> ghost(copied) == 1
+//@   ensures  old(off + int64(len(b)) <= p.start) ==> ghost(copied) == 0
+//@   modifies p.end, p.head, p.tail, pipebuf.next, pipebuf.off
+//@   noframe
+//@   partial nopanic
+//@   timeout 40
